@@ -52,7 +52,7 @@ def check(prog, run, pr_cases=None, mode_cases=None, xcopy_cases=None, floors=Tr
             holder["img"] = img
             a = [op] + [x() if callable(x) else x for x in pos_args]
             inst = I.instantiate(cls, a, kw if isinstance(kw, dict) and not pos_is_data(pos_args) else {}, None, _F("C05 " + name))
-            return inst, img
+            return inst, img, pub_view(I, inst)
         def pos_is_data(pa):
             return False
         ps = I.explore(th, max_paths=64)
@@ -64,8 +64,8 @@ def check(prog, run, pr_cases=None, mode_cases=None, xcopy_cases=None, floors=Tr
                               % (name, p.raised.describe(), (" [when %s]" % p.cond_str()[:150]) if p.path else ""),
                               file, getattr(p.raised.node, "lineno", init.node.lineno), cls.qualname)
                 continue
-            inst, img = p.value
-            dout = inst.attrs.get("_dataout")
+            inst, img, pub = p.value
+            dout = pub.get("dataout")
             if isinstance(dout, bytes):
                 dout = Buf(cells=list(dout))
             d = img.diff(dout)
@@ -77,7 +77,7 @@ def check(prog, run, pr_cases=None, mode_cases=None, xcopy_cases=None, floors=Tr
             else:
                 run.ok("parameter-list-image", name, {"bytes": len(img)})
             # CDB parameter list length
-            cdb = inst.attrs.get("_cdb")
+            cdb = pub.get("cdb")
             if len_field is not None and isinstance(cdb, Buf) and cdb.cells is not None:
                 first, n = len_field
                 val = 0
